@@ -182,6 +182,8 @@ pub fn set_fatal_hook(h: FatalHook) {
 }
 
 pub struct Sched {
+    /// (thread, from, to) of every completed lock wait and thread-level sleep, when enabled
+    wait_log: Option<Vec<(usize, u64, u64)>>,
     threads: Vec<Slot>,
     current: usize,
     now: u64,
@@ -621,7 +623,35 @@ impl Sim {
         g.step += 1;
         g.lock_waiters.entry(addr).or_default().push(me);
         g.threads[me].st = St::Blocked(Why::Lock(addr));
+        let from = g.now;
+        let logging = g.wait_log.is_some();
         self.dispatch(g, me, false);
+        if logging {
+            self.note_wait(me, from);
+        }
+    }
+
+    fn note_wait(&self, me: usize, from: u64) {
+        let mut g = self.lock();
+        let to = g.now;
+        if to > from {
+            if let Some(l) = g.wait_log.as_mut() {
+                l.push((me, from, to));
+            }
+        }
+    }
+
+    /// Start recording how long each thread waits for locks and in thread-level sleeps
+    /// (simulated time only passes while threads wait).
+    pub fn enable_wait_log(&self) {
+        let mut g = self.lock();
+        if g.wait_log.is_none() {
+            g.wait_log = Some(Vec::new());
+        }
+    }
+
+    pub fn wait_log(&self) -> Vec<(usize, u64, u64)> {
+        self.lock().wait_log.clone().unwrap_or_default()
     }
 
     /// Make every waiter of `addr` runnable again (they re-contend; barging is allowed, as
@@ -673,7 +703,12 @@ impl Sim {
         g.timers.insert(key, TimerTarget::Thread(me));
         g.threads[me].token = false;
         g.threads[me].st = St::Blocked(Why::Timer);
+        let from = g.now;
+        let logging = g.wait_log.is_some();
         self.dispatch(g, me, false);
+        if logging {
+            self.note_wait(me, from);
+        }
     }
 
     /// Block until no other thread can run. With `limit == u64::MAX` pending timers are not
@@ -958,6 +993,7 @@ where
         _ => 0,
     };
     let sched = Sched {
+        wait_log: None,
         threads: vec![Slot {
             st: St::Runnable,
             name: "main".into(),
